@@ -905,6 +905,8 @@ func runC28(c *Ctx) {
 		} else {
 			r.Bad("C28.R3", FuncID(fn), "gap-read", p.Pos(fn.Pos()), "the bytes compared with /Contents are not read from [end of first range, start of second range)")
 		}
+	} else {
+		r.Bad("C28.R3", "pkg/pdfcpu/sign.validateContentsGap", "anchor", "", "UNRESOLVED-ANCHOR: function not found")
 	}
 	if fn := p.Func("pkg/pdfcpu/sign.contentsGapMatches"); fn == nil {
 		r.Bad("C28.R3", "pkg/pdfcpu/sign.contentsGapMatches", "anchor", "", "UNRESOLVED-ANCHOR")
